@@ -32,10 +32,18 @@ struct jrec final : basic_json_visitor<char> {
 };
 // options word: bit0 allow_trailing_comma, bit1 lossless_number, bit2 lossless_bignum, bit3 allow_comments; bits 8.. max_nesting_depth
 KFN int k_json_parse(const char* s, unsigned long n, unsigned long sp1, unsigned long sp2, unsigned opts, jev* ev, unsigned cap, unsigned* nev) {
-    json_options o;
-    o.allow_trailing_comma((opts & 1) != 0); o.lossless_number((opts & 2) != 0); o.lossless_bignum((opts & 4) != 0); o.allow_comments((opts & 8) != 0);
-    o.max_nesting_depth((int)(opts >> 8));
-    json_parser p(o);
+    // The parser is built as raw typed storage and its members are initialised directly (DESIGN 2.1): the real constructor only copies option
+    // values, but it reads them through a virtual base of the options class (vbase offsets fetched from a vtable), which defeats constant
+    // propagation in the symbolic executor.  What the constructor would do is replicated here: options -> fields, buffer/stack set up, reset().
+    RAWOBJ(json_parser, pp); json_parser& p = *pp;
+    p.max_nesting_depth_ = (int)(opts >> 8);
+    p.allow_trailing_comma_ = (opts & 1) != 0; p.lossless_number_ = (opts & 2) != 0; p.lossless_bignum_ = (opts & 4) != 0; p.allow_comments_ = (opts & 8) != 0;
+    new (&p.inf_to_str_) std::string(); new (&p.neginf_to_str_) std::string(); new (&p.nan_to_str_) std::string();
+    new (&p.err_handler_) std::function<bool(json_errc, const ser_context&)>(default_json_parsing());
+    new (&p.buffer_) std::string();
+    new (&p.state_stack_) std::vector<parse_state>();
+    p.state_stack_.reserve(8);
+    p.line_ = 1; p.more_ = true; p.state_ = parse_state::start;
     jrec v(ev, cap);
     std::error_code ec;
     if (sp1 > n) sp1 = n; if (sp2 > n) sp2 = n; if (sp2 < sp1) sp2 = sp1;
